@@ -179,3 +179,29 @@ def register(w):
         return (not bad, bad or "privileged calls occur only in init_security/init_ssl_context and helpers reachable only from them")
 
     w.astcheck("C19.ast.no-priv-calls-elsewhere", ["C19"], no_priv_calls_elsewhere)
+
+    def start_script(world):
+        """bin/pygopherd does nothing between initialize() and serve_forever(): the configuration that init_security
+        rewrote after the chroot (document root '/') is the one the server serves with."""
+        import ast as _ast, os as _os
+        path = _os.path.join(world.repo.root, "bin", "pygopherd") if hasattr(world.repo, "root") else "/repo/bin/pygopherd"
+        try:
+            tree = _ast.parse(open(path).read())
+        except OSError:
+            return (True, "bin/pygopherd not present")
+        body = [st for st in tree.body if not isinstance(st, (_ast.Import, _ast.ImportFrom))]
+        texts = [_ast.unparse(st) for st in body]
+        bad = []
+        try:
+            i = next(k for k, t in enumerate(texts) if "initialization.initialize(" in t)
+        except StopIteration:
+            return (False, ["bin/pygopherd no longer calls initialization.initialize()"])
+        after = texts[i + 1:]
+        if after != ["s.serve_forever()"]:
+            bad.append("bin/pygopherd runs %r between initialize() and serve_forever()" % after)
+        for t in texts[:i]:
+            if any(k in t for k in ("chroot", "setuid", "setgid", "setreuid", "setregid", "setgroups", ".bind(")):
+                bad.append("bin/pygopherd performs a privileged call itself: %s" % t[:80])
+        return (not bad, bad or "the start script only parses its arguments, initialises and serves")
+
+    w.astcheck("C19.ast.start-script", ["C19"], start_script)
